@@ -26,13 +26,14 @@ class Registry(V.Family):
     driver_pkg = "container"
     monitor = ("ContainerTrace.tla", "ContainerTrace.cfg")
     monitor_constants = FIXED
-    step_keys = ("act", "S", "c", "v", "nm", "meta", "o", "k", "amt")
+    step_keys = ("act", "S", "c", "v", "nm", "meta", "c2", "v2", "nm2", "meta2", "o", "k", "amt")
     assume = COMMON_ASSUME + [
         "the Container alias TLD is registered by the committee before Container is deployed (the deploy transaction of "
         "harness/chain carries no committee witness for n in {3,7}); alias domains never expire during a scenario (10 years)",
         "fees, balances and mint amounts are scaled by U in {1,1e8,2^40,1e30} and must divide exactly; fees are >= 0",
-        "container owners are ordinary accounts different from the Alphabet nodes' accounts; roster/estimation methods are not "
-        "part of C04 scenarios (quantifier: create/delete/eACL operations)",
+        "container owners are ordinary accounts (o1, o2) or the standard account of the middle Alphabet node (oa); put2 steps are two "
+        "puts of different containers executed as two transactions of one block; roster/estimation methods are not part of C04 "
+        "scenarios (quantifier: create/delete/eACL operations)",
     ]
     rule = ("one evaluation = one transaction executed on the real Container/NNS/Balance/Netmap/NeoFSID contracts and judged by the "
             "TLA+ monitor on the full observed state (read API of every model id incl. a never-used one, raw Container storage decoded "
@@ -66,15 +67,17 @@ class Registry(V.Family):
             if before == "live" and p["alias"][c] != "none":
                 before = "live+alias"
         feec = "-"
-        if r["act"] == "put":
+        if r["act"] in ("put", "put2"):
             f = p["fee"] + (p["afee"] if r["nm"] != "nil" else 0)
             need = f * p["n"]
-            owner = {"c0": "o1", "c1": "o1", "c2": "o1", "c3": "o2", "c4": "o2", "c5": "o3"}[c]
+            owner = {"c0": "o1", "c1": "o1", "c2": "o1", "c3": "o2", "c4": "o2", "c5": "oa"}[c]
             b = p["bal"][owner]
             feec = ("free" if need == 0 else "short1" if b == need - 1 else "short" if b < need else "exact" if b == need
                     else "over1" if b == need + 1 else "over")
         domc = p["dom"].get(r["nm"], "-") if r["nm"] != "nil" else "-"
-        return (r["act"], r["res"], r["ret"], sc, r["nm"] != "nil", r["meta"], before, feec, domc, changed)
+        role = "node-owner" if c == "c5" or r.get("c2") == "c5" else "user"
+        return (r["act"], r["res"], r.get("res2", "nil"), r["ret"], sc, r["nm"] != "nil", r.get("nm2", "nil") != "nil", r["meta"], before,
+                feec, domc, role, changed)
 
     def extra_coverage(self, trace_all, flags_all):
         return dict(committee_sizes=sorted(set(r["n"] for r in trace_all if r["act"] == "reset")),
@@ -138,4 +141,9 @@ class Roster(V.Family):
 
 def run(pid, tier, seed, replay=None):
     fam = Roster() if pid == "C14" else Registry()
+    if pid in ("C04", "C05") and tier == "quick":
+        # quick S1: C05's arithmetic (fees, node-owner, two puts per block) lives in the Fee configuration, C04's registry/NNS
+        # interplay in Container_quick (both fees 0); the thorough tier checks all properties on both
+        cfgname = "ContainerFee_quick.cfg" if pid == "C05" else "Container_quick.cfg"
+        fam.tiers = dict(fam.tiers, quick=dict(fam.tiers["quick"], mc=[("ContainerMC.tla", cfgname)]))
     return V.run_family(fam, pid, tier, seed, replay)
